@@ -252,6 +252,153 @@ fn threshold_family(ctx: &Ctx, thorough: bool) -> (u64, u64, Vec<Value>) {
     (res.iter().map(|r| r.0).sum(), res.iter().map(|r| r.1).sum(), vec![json!({"statuses": states[states.len() / 2], "note": "threshold family member (3 peers with structured advertised sets, every candidate in front once)"})])
 }
 
+// -------------------------------------------------------------------------------------------
+// Picks along command histories: what a peer advertised is what the manager recorded from its
+// real Bitfield / Have commands, interleaved with choke / unchoke of all peers
+// -------------------------------------------------------------------------------------------
+
+use crate::explore::{self, Scenario};
+use crate::world::{Ev, World, WorldCfg};
+
+pub struct Picks {
+    pub n: usize,
+    pub pieces: usize,
+    pub masks: Vec<u8>,
+}
+
+#[derive(Default)]
+pub struct PicksMon {
+    /// What each peer really advertised (bitfield replaces, have adds).
+    pub advertised: Vec<Vec<bool>>,
+    pub bitfields: Vec<usize>,
+    pub prev_statuses: Vec<u8>,
+    pub prev_assigned: Vec<Option<usize>>,
+    pub prev_choked: Vec<bool>,
+}
+
+fn code(s: &Status) -> u8 {
+    match s {
+        Status::Missing => 0,
+        Status::Reserved(1) => 1,
+        Status::Reserved(_) => 2,
+        Status::Have => 3,
+    }
+}
+
+impl Scenario for Picks {
+    type Mon = PicksMon;
+    fn name(&self) -> String {
+        format!("picks-n{}-p{}-m{:?}", self.n, self.pieces, self.masks)
+    }
+    fn cfg(&self) -> WorldCfg {
+        WorldCfg { torrent: Torrent::new("t", 1, &[("f", self.pieces)], true), have: vec![], peers: vec![], gated: false }
+    }
+    fn explore_choices(&self) -> bool {
+        true
+    }
+    fn setup(&self, w: &mut World, mon: &mut PicksMon) {
+        for _ in 0..self.n {
+            w.add_mgr_peer();
+        }
+        mon.advertised = vec![vec![false; self.pieces]; self.n];
+        mon.bitfields = vec![0; self.n];
+        self.remember(w, mon);
+    }
+    fn enabled(&self, _w: &World, mon: &PicksMon, _depth: usize) -> Vec<String> {
+        let mut e = vec![];
+        for k in 0..self.n {
+            if mon.bitfields[k] < 2 {
+                for m in &self.masks {
+                    e.push(format!("B{}:{}", k, m));
+                }
+            }
+            for i in 0..3.min(self.pieces) {
+                if !mon.advertised[k][i] {
+                    e.push(format!("H{}:{}", k, i));
+                }
+            }
+            e.push(format!("U{}", k));
+            if !mon.prev_choked[k] {
+                e.push(format!("C{}", k));
+            }
+        }
+        e
+    }
+    fn concretize(&self, _w: &World, _mon: &PicksMon, sym: &str) -> Vec<Ev> {
+        let (head, rest) = sym.split_at(1);
+        let (k, arg) = match rest.split_once(':') {
+            Some((k, a)) => (k.parse::<usize>().unwrap(), Some(a.parse::<usize>().unwrap())),
+            None => (rest.parse::<usize>().unwrap(), None),
+        };
+        vec![match head {
+            "B" => Ev::MgrBitfield(k, (0..self.pieces).map(|i| i < 3 && arg.unwrap() >> i & 1 == 1).collect()),
+            "H" => Ev::MgrHave(k, arg.unwrap()),
+            "U" => Ev::MgrUnchoke(k),
+            "C" => Ev::MgrChoke(k),
+            _ => panic!("bad symbol"),
+        }]
+    }
+    fn check(&self, w: &World, mon: &mut PicksMon, last: Option<&str>) -> Option<(&'static str, String)> {
+        if let Some(d) = &w.dead {
+            return Some(("manager-died", d.clone()));
+        }
+        let mut verdict = None;
+        if let Some(sym) = last {
+            let (head, rest) = sym.split_at(1);
+            let (k, arg) = match rest.split_once(':') {
+                Some((k, a)) => (k.parse::<usize>().unwrap(), Some(a.parse::<usize>().unwrap())),
+                None => (rest.parse::<usize>().unwrap(), None),
+            };
+            match head {
+                "B" => {
+                    mon.bitfields[k] += 1;
+                    for i in 0..self.pieces {
+                        mon.advertised[k][i] = i < 3 && arg.unwrap() >> i & 1 == 1;
+                    }
+                }
+                "H" => mon.advertised[k][arg.unwrap()] = true,
+                "U" => {
+                    // a pick happens when the peer had no live assignment
+                    let had_live_assignment = mon.prev_assigned[k].is_some() && !mon.prev_choked[k];
+                    if !had_live_assignment {
+                        let mut peers = vec![mon.advertised[k].clone()];
+                        peers.extend((0..self.n).filter(|j| *j != k).map(|j| mon.advertised[j].clone()));
+                        let st = State { statuses: mon.prev_statuses.clone(), peers, digits: vec![] };
+                        let reply = w.mgr_reply.clone().unwrap_or_default();
+                        let pick: Option<usize> = reply.split("piece_index: ").nth(1).and_then(|r| r.split(',').next()).and_then(|v| v.trim().parse().ok());
+                        if let Some((class, why)) = judge(&st, pick) {
+                            verdict = Some((class, format!("peer {} unchoked; it advertised {:?}; manager answered {}; {}", k, mon.advertised[k], reply, why)));
+                        }
+                    }
+                }
+                _ => {}
+            }
+        }
+        self.remember(w, mon);
+        verdict
+    }
+    fn key(&self, w: &World, mon: &PicksMon) -> String {
+        format!("{} adv={:?} bf={:?}", w.session_key(), mon.advertised, mon.bitfields)
+    }
+}
+
+impl Picks {
+    fn remember(&self, w: &World, mon: &mut PicksMon) {
+        let snap = w.snap();
+        mon.prev_statuses = snap.statuses.iter().map(code).collect();
+        mon.prev_assigned = (0..self.n).map(|k| snap.peers.iter().find(|p| p.addr == w.mgr_peers[k]).and_then(|p| p.piece_index)).collect();
+        mon.prev_choked = (0..self.n).map(|k| snap.peers.iter().find(|p| p.addr == w.mgr_peers[k]).map(|p| p.choked).unwrap_or(true)).collect();
+    }
+}
+
+pub fn picks_scenarios(thorough: bool) -> Vec<(Picks, usize)> {
+    if thorough {
+        vec![(Picks { n: 2, pieces: 3, masks: vec![1, 3, 7] }, 8), (Picks { n: 3, pieces: 3, masks: vec![1, 6] }, 6), (Picks { n: 2, pieces: 12, masks: vec![1, 3, 7] }, 8)]
+    } else {
+        vec![(Picks { n: 2, pieces: 3, masks: vec![1, 6] }, 6), (Picks { n: 2, pieces: 12, masks: vec![1, 3] }, 6)]
+    }
+}
+
 pub fn run(ctx: &Ctx) -> Outcome {
     let thorough = ctx.tier == core::Tier::Thorough;
     let mut evals = 0u64;
@@ -272,14 +419,22 @@ pub fn run(ctx: &Ctx) -> Outcome {
     nontrivial += t;
     samples.extend(s);
 
+    // picks along command histories
+    let mut bfs_total = explore::Stats { exhaustive: true, ..Default::default() };
+    for (sc, depth) in picks_scenarios(thorough) {
+        let st = explore::bfs(ctx, &sc, depth, ctx.tier.pick(40, 20));
+        parts.push(json!({"scenario": Scenario::name(&sc), "depth": depth, "states": st.states, "transitions": st.transitions, "depth_completed": st.depth_completed}));
+        bfs_total.merge(&st);
+    }
     let mut o = Outcome::new("model_checking");
-    o.set("states", json!(evals));
-    o.set("transitions", json!(evals));
-    o.set("traces_validated_against_impl", json!(evals));
+    o.set("states", json!(evals + bfs_total.states));
+    o.set("transitions", json!(evals + bfs_total.transitions));
+    o.set("traces_validated_against_impl", json!(evals + bfs_total.executions));
+    o.set("bfs_exhaustive", json!(bfs_total.exhaustive));
     o.set("evaluations", json!(evals));
     o.set("distinct_nontrivial", json!(nontrivial));
     o.set("parts", Value::Array(parts));
-    o.set("rule", json!("exhaustive part: n pieces, every status vector over {Missing, Reserved(1), Reserved(2), Have}, the asked peer plus the other peers with every advertised set, and every digit vector of the real Fisher-Yates shuffle (= every tie-break permutation); threshold part: n in 9..=12, every (have, reserved, missing) split in two layouts, 3 peers with advertised sets from {all, none, only missing, only reserved, single piece x3, every second}, every candidate brought to the front of the shuffle once. Each (state, tie-break) is one call of the real choose_piece_index; states = transitions = evaluations; non-trivial = more than one acceptable pick."));
+    o.set("rule", json!("exhaustive part: n pieces, every status vector over {Missing, Reserved(1), Reserved(2), Have}, the asked peer plus the other peers with every advertised set, and every digit vector of the real Fisher-Yates shuffle (= every tie-break permutation); threshold part: n in 9..=12, every (have, reserved, missing) split in two layouts, 3 peers with advertised sets from {all, none, only missing, only reserved, single piece x3, every second}, every candidate brought to the front of the shuffle once. Each (state, tie-break) is one call of the real choose_piece_index; states = transitions = evaluations; non-trivial = more than one acceptable pick. History part (picks-*): BFS over the commands B<k>:<mask> (bitfield, at most twice), H<k>:<i> (have), U<k> (unchoke, answered on a live reply channel), C<k> (choke) of 2..3 manager-only peers on a 3-piece and a 12-piece torrent: whenever an unchoke makes the manager pick, the pick must be acceptable with respect to what the peers really advertised (the harness's own record of their bitfields and haves) and the statuses before the command."));
     o.set("samples", Value::Array(samples));
     o.set("exhaustive", json!(true));
     o.assume("the asked peer holds no assignment of its own (reservations belong to other peers); the pick is observed at choose_piece_index, which every command handler (unchoke, bitfield, piece done/cancel, not-interested) calls");
@@ -287,6 +442,16 @@ pub fn run(ctx: &Ctx) -> Outcome {
 }
 
 pub fn replay(_ctx: &Ctx, r: &Value) -> i32 {
+    if let Some(name) = r["scenario"].as_str() {
+        for thorough in [false, true] {
+            for (sc, _) in picks_scenarios(thorough) {
+                if Scenario::name(&sc) == name {
+                    return explore::replay_verbose(&sc, &explore::hist_from_json(&r["history"]), "C13");
+                }
+            }
+        }
+        return 2;
+    }
     let st = State {
         statuses: r["statuses"].as_array().unwrap().iter().map(|x| x.as_u64().unwrap() as u8).collect(),
         peers: r["peers"].as_array().unwrap().iter().map(|p| p.as_array().unwrap().iter().map(|b| b.as_bool().unwrap()).collect()).collect(),
